@@ -2,6 +2,8 @@
 # usage: tools/try_patch.sh <patch.diff> <PROPERTY-ID> [tier]  - apply a seeded change to /repo, run one check, undo.
 # The evidence file of the property is preserved (evidence must describe the unchanged tree).
 P="$1"; ID="$2"; TIER="${3:-quick}"
+# one patched tree at a time: /repo is shared
+exec 9>/tmp/try_patch.lock; flock 9
 cd /repo || exit 9
 git apply "$P" || { echo "patch does not apply"; exit 9; }
 cd /verif
